@@ -191,7 +191,9 @@ impl Inner {
         let xfr_type = match resp.qtype() {
             Some(Rtype::AXFR) => XfrType::Axfr,
             Some(Rtype::IXFR) => XfrType::Ixfr,
-            _ => unreachable!(),
+            // The question of the (attacker controlled) response is for
+            // some other type, or cannot be parsed.
+            _ => return Err(Error::NotValidXfrResponse),
         };
 
         let Some(Ok(record)) = records.next() else {
